@@ -447,6 +447,11 @@ def source_mixture(U: np.ndarray, n_keep: int, full_in, brightness: float,
                     indis[mode] += 1
                 else:
                     singles.append(mode)
+        if sum(indis) == 1:
+            # a lone "indistinguishable" photon has nothing to interfere with:
+            # physically the same configuration as a distinguishable one
+            singles.append(indis.index(1))
+            indis = [0] * d
         key = (tuple(indis), tuple(sorted(singles)))
         configs[key] = configs.get(key, 0.0) + p
     if threshold:
